@@ -188,9 +188,9 @@ var (
 	ballast   []byte
 
 	Args   []string
-	Stdout = &Stream{kind: "OUT", name: "/dev/stdout", fd: 1}
-	Stderr = &Stream{kind: "ERR", name: "/dev/stderr", fd: 2}
-	Stdin  = &InStream{}
+	Stdout = &OSFile{s: &Stream{kind: "OUT", name: "/dev/stdout", fd: 1}}
+	Stderr = &OSFile{s: &Stream{kind: "ERR", name: "/dev/stderr", fd: 2}}
+	Stdin  = &OSFile{i: &InStream{}}
 	Rand   *rand.Rand
 
 	resets []func()
@@ -462,7 +462,78 @@ type SimFile struct {
 	err  string
 }
 
-func Open(path string) (*SimFile, error) {
+// OSFile stands for os.File in the code under test (the instrumenter rewrites the type name
+// too, so that `func f(w *os.File)` keeps compiling): one of the three standard streams or a
+// file opened for reading.
+type OSFile struct {
+	s *Stream
+	i *InStream
+	f *SimFile
+}
+
+func (o *OSFile) bad(op string) error {
+	return &fs.PathError{Op: op, Path: o.Name(), Err: syscall.EBADF}
+}
+func (o *OSFile) Write(p []byte) (int, error) {
+	if o.s == nil {
+		return 0, o.bad("write")
+	}
+	return o.s.Write(p)
+}
+func (o *OSFile) WriteString(p string) (int, error) {
+	if o.s == nil {
+		return 0, o.bad("write")
+	}
+	return o.s.WriteString(p)
+}
+func (o *OSFile) Read(p []byte) (int, error) {
+	switch {
+	case o.i != nil:
+		return o.i.Read(p)
+	case o.f != nil:
+		return o.f.Read(p)
+	}
+	return 0, o.bad("read")
+}
+func (o *OSFile) Close() error { return nil }
+func (o *OSFile) Sync() error  { return nil }
+func (o *OSFile) Stat() (fs.FileInfo, error) {
+	switch {
+	case o.s != nil:
+		return o.s.Stat()
+	case o.i != nil:
+		return o.i.Stat()
+	}
+	return o.f.Stat()
+}
+func (o *OSFile) Fd() uintptr {
+	switch {
+	case o.s != nil:
+		return o.s.fd
+	case o.i != nil:
+		return 0
+	}
+	return 3
+}
+func (o *OSFile) Name() string {
+	switch {
+	case o.s != nil:
+		return o.s.name
+	case o.i != nil:
+		return "/dev/stdin"
+	}
+	return o.f.path
+}
+
+func Open(path string) (*OSFile, error) {
+	f, err := openSim(path)
+	if err != nil {
+		return nil, err
+	}
+	return &OSFile{f: f}, nil
+}
+
+func openSim(path string) (*SimFile, error) {
 	record("FILE", path, 0)
 	f, ok := cfg.Files[path]
 	if !ok {
